@@ -344,6 +344,12 @@ func mainHistory(seed uint64, rng *Rng, blocks int) *Pilot {
 		if p.R.Chance(1, 6) {
 			p.AcceptedEdit()
 		}
+		// parameters at a meaningful zero / off (genesis export must carry them as they are)
+		if b == 11 {
+			p.MarginParamsZeros(int(seed))
+		} else if p.R.Chance(1, 7) {
+			p.ZeroParams()
+		}
 		k := 3 + p.R.Intn(6)
 		for i := 0; i < k && len(ps) > 0; i++ {
 			u := p.user()
